@@ -272,7 +272,8 @@ func contextRefName(contextOfCall protoreflect.Descriptor, refElement protorefle
 		// if the thing the field references is in a different package, then the
 		// full reference is used
 		fullName := string(refElement.FullName())
-		if packageNameCaptured(contextOfCall, fullName) {
+		first, _, _ := strings.Cut(fullName, ".")
+		if packageNameCaptured(contextOfCall, fullName) || statementKeywords[first] {
 			return "." + fullName, nil
 		}
 		return fullName, nil
@@ -295,11 +296,25 @@ func contextRefName(contextOfCall protoreflect.Descriptor, refElement protorefle
 	// The parser looks the first part of a relative name up in the innermost
 	// scope first. When a scope between here and the one the name is relative
 	// to declares a type of that name, it would find that one.
-	if nameShadowed(contextOfCall, len(contextPath)-stripped, refPath[0]) {
+	if nameShadowed(contextOfCall, len(contextPath)-stripped, refPath[0]) || statementKeywords[refPath[0]] {
 		return "." + string(refElement.FullName()), nil
 	}
 
 	return strings.Join(refPath, "."), nil
+}
+
+// statementKeywords are the words the parser does not read as the start of a
+// type name where a field, an rpc type or a map value is declared: they begin
+// another statement (option, message, ...), are a label, or name a scalar type.
+// A relative type name that starts with one of them is printed with its full
+// name and a leading dot.
+var statementKeywords = map[string]bool{
+	"option": true, "optional": true, "repeated": true, "required": true, "group": true,
+	"message": true, "enum": true, "oneof": true, "extend": true, "extensions": true,
+	"reserved": true, "stream": true,
+	"double": true, "float": true, "int32": true, "int64": true, "uint32": true, "uint64": true,
+	"sint32": true, "sint64": true, "fixed32": true, "fixed64": true, "sfixed32": true,
+	"sfixed64": true, "bool": true, "string": true, "bytes": true,
 }
 
 // nameShadowed reports whether one of the innermost 'levels' scopes around
